@@ -1,4 +1,362 @@
 import GateModel.C30.Lemmas
+/-
+C30 — Lite backend selection tries each backend once per attempt and counts fairly.
+
+Property theorems only (helper lemmas live in `Lemmas.lean`).  Parameters: `parse` (Go's address parsing),
+`choose` (the strategy's pick at each step — ANY function returning a member of the remaining list, so all
+five strategies, every random source and every concurrent change of strategy state between two picks are
+covered), `dialOk` (dial outcomes, may differ per step).  Clauses and where they are proved:
+
+  each distinct backend tried at most once      each_once, dials_are_configured
+  the attempt ends / fails only after all failed attempt_ends, fails_only_after_all, connects_to_first_success
+  every strategy is such a `choose`             strategies_choose_members
+  sequential: config order                      sequential_config_order
+  round-robin: rotating                         round_robin_rotation, rr_atomic_all_interleavings
+  least-connections: fewest active              least_connections_first_min
+  lowest-latency: unmeasured first, then lowest lowest_latency_unmeasured_first, lowest_latency_first_min
+  counts = open connections, back to zero,      counts_exact, counts_return_to_zero  (all interleavings of the
+    also under concurrent connections             four atomic sections of each connection), track_open/close
+  tie to the source                             src_counter_lock_regions, src_rng_locked, src_rr_locked,
+                                                src_strategy_switch, src_try_loop, src_closure_removal
+  the defects repaired                          each_once_fails, attempt_never_ends_fails,
+                                                removeDefective_partial, rr_lost_update_fails
+PARTIAL: interleaving semantics of critical sections is weaker than the Go memory model; the `math/rand`
+data race is a memory-model fact — the model only records (src_rng_locked) that the generator is used under a mutex.
+-/
 namespace Gate.C30.Props
-theorem placeholder : True := trivial
+open Gate Gate.C30
+
+/-! ### one connection attempt (repaired removal), for every selection function -/
+
+/-- no two dialled addresses denote the same backend -/
+theorem each_once (parse : ParseFn) (choose : Nat → List Addr → Addr) (hc : Chooses choose)
+    (dialOk : Nat → Addr → Bool) (backends : List Addr) :
+    noRepeat parse (attempt (removeSelected parse) choose dialOk backends).1 = true :=
+  noRepeat_of_nodup parse _ (attemptF_nodup parse choose dialOk hc _ _ _)
+
+theorem dials_are_configured (parse : ParseFn) (choose : Nat → List Addr → Addr) (hc : Chooses choose)
+    (dialOk : Nat → Addr → Bool) (backends : List Addr) :
+    ∀ d ∈ (attempt (removeSelected parse) choose dialOk backends).1, d ∈ backends :=
+  attemptF_subset parse choose dialOk hc _ _ _
+
+/-- the attempt ends (also with unparseable addresses) after at most `len(backends)` dials -/
+theorem attempt_ends (parse : ParseFn) (choose : Nat → List Addr → Addr) (hc : Chooses choose)
+    (dialOk : Nat → Addr → Bool) (backends : List Addr) :
+    (attempt (removeSelected parse) choose dialOk backends).2 ≠ .running ∧
+    (attempt (removeSelected parse) choose dialOk backends).1.length ≤ backends.length :=
+  ⟨attemptF_ends parse choose dialOk hc _ _ _ (Nat.lt_succ_self _), attemptF_length_le parse choose dialOk hc _ _ _⟩
+
+/-- failure is reported only after every configured backend was dialled, and every one of those dials failed -/
+theorem fails_only_after_all (parse : ParseFn) (choose : Nat → List Addr → Addr)
+    (dialOk : Nat → Addr → Bool) (backends : List Addr)
+    (h : (attempt (removeSelected parse) choose dialOk backends).2 = .failed) :
+    allTried parse backends (attempt (removeSelected parse) choose dialOk backends).1 = true ∧
+    ∀ i d, (attempt (removeSelected parse) choose dialOk backends).1[i]? = some d → dialOk i d = false := by
+  obtain ⟨h1, h2⟩ := attemptF_failed parse choose dialOk _ 0 backends h
+  exact ⟨allTried_of parse _ _ h1, fun i d hi => by simpa using h2 i d hi⟩
+
+/-- a connection is made to the last dialled address, the first whose dial succeeded -/
+theorem connects_to_first_success (parse : ParseFn) (choose : Nat → List Addr → Addr)
+    (dialOk : Nat → Addr → Bool) (backends : List Addr) (a : Addr)
+    (h : (attempt (removeSelected parse) choose dialOk backends).2 = .connected a) :
+    ∃ pre, (attempt (removeSelected parse) choose dialOk backends).1 = pre ++ [a] ∧
+      dialOk pre.length a = true ∧ ∀ i d, pre[i]? = some d → dialOk i d = false := by
+  obtain ⟨pre, h1, h2, h3⟩ := attemptF_connected parse choose dialOk _ 0 backends a h
+  exact ⟨pre, h1, by simpa using h2, fun i d hi => by simpa using h3 i d hi⟩
+
+/-- every strategy of `GetNextBackend`, in any state and with any value `rng.Intn(len)` can return, picks a member
+    of the list it is given — so the theorems above apply to all of them, whatever other connections do to
+    the strategy state between two picks -/
+theorem strategies_choose_members (st : Strategy) (state : Nat → SState) (host : Bytes)
+    (rnd : Nat → List Addr → Nat) (hr : ∀ t l, l ≠ [] → rnd t l < l.length) :
+    Chooses (fun t l => (pick st (state t) host (rnd t l) l).1) :=
+  fun t l hl => pick_mem st (state t) host (rnd t l) l hl (fun _ => hr t l hl)
+
+example : Chooses (fun _ l => l.headD []) := fun _ l hl => headD_mem l hl
+example : (attempt (removeSelected (fun a => some (a, 1))) (fun _ l => l.headD []) (fun _ _ => false) [[97], [97], [98]])
+    = ([[97], [98]], .failed) := by decide
+
+/-! ### the strategies' orders -/
+
+/-- sequential: the dialled addresses appear in configuration order -/
+theorem sequential_config_order (parse : ParseFn) (dialOk : Nat → Addr → Bool) (backends : List Addr) :
+    (attempt (removeSelected parse) (fun _ l => l.headD []) dialOk backends).1.Sublist backends := by
+  unfold attempt
+  generalize backends.length + 1 = f
+  generalize (0 : Nat) = t
+  induction f generalizing t backends with
+  | zero => simp [attemptF]
+  | succ f ih =>
+    unfold attemptF
+    cases backends with
+    | nil => simp
+    | cons b rest =>
+      simp only [List.isEmpty_cons, Bool.false_eq_true, if_false, List.headD_cons]
+      by_cases hd : dialOk t b = true
+      · simp [hd]
+      · simp only [hd, Bool.false_eq_true, if_false]
+        have h1 := ih (removeSelected parse b (b :: rest)) (t + 1)
+        have h2 : (removeSelected parse b (b :: rest)).Sublist rest := by
+          unfold removeSelected
+          rw [List.filter_cons]
+          simp only [sameBackend_refl, Bool.not_true, Bool.false_eq_true, if_false]
+          exact List.filter_sublist
+        exact (h1.trans h2).cons_cons b
+
+/-- sequential: the first dial is the first configured backend -/
+theorem sequential_first (s : SState) (host : Bytes) (rnd : Nat) (l : List Addr) :
+    (pick .sequential s host rnd l).1 = l.headD [] ∧ (pick .sequential s host rnd l).2.rr = s.rr := ⟨rfl, rfl⟩
+
+/-- `k` consecutive round-robin picks on one route host -/
+def rrPicks (s : SState) (host : Bytes) (l : List Addr) : Nat → List Addr × SState
+  | 0 => ([], s)
+  | k + 1 =>
+    let r := rrPicks s host l k
+    let p := pick .roundRobin r.2 host 0 l
+    (r.1 ++ [p.1], p.2)
+
+/-- round-robin rotates: the i-th pick is entry `(start + i) mod len`, and the index advances once per pick -/
+theorem round_robin_rotation (s : SState) (host : Bytes) (l : List Addr) (k : Nat) :
+    (rrPicks s host l k).1 = (List.range k).map (fun i => l.getD ((rrIndex s host + i) % l.length) []) ∧
+    rrIndex (rrPicks s host l k).2 host = rrIndex s host + k := by
+  induction k with
+  | zero => exact ⟨rfl, rfl⟩
+  | succ k ih =>
+    obtain ⟨h1, h2⟩ := ih
+    simp only [rrPicks, pick]
+    refine ⟨?_, ?_⟩
+    · rw [h1, h2, List.range_succ, List.map_append]; rfl
+    · rw [rrIndex_setRR_same, h2]; omega
+
+/-- other routes' indices are untouched -/
+theorem round_robin_per_route (s : SState) (host host' : Bytes) (l : List Addr) (h : host' ≠ host) :
+    rrIndex (pick .roundRobin s host 0 l).2 host' = rrIndex s host' := rrIndex_setRR_other s host host' _ h
+
+/-- least-connections returns the first backend with the fewest counted connections -/
+theorem least_connections_first_min (s : SState) (host : Bytes) (rnd : Nat) (l : List Addr) (h : l ≠ [])
+    (hne : ∀ b ∈ l, b ≠ []) (hlt : ∀ b ∈ l, connCount s b < maxUint32) :
+    ∃ pre post, l = pre ++ (pick .leastConnections s host rnd l).1 :: post ∧
+      (∀ b ∈ l, connCount s (pick .leastConnections s host rnd l).1 ≤ connCount s b) ∧
+      ∀ b ∈ pre, connCount s (pick .leastConnections s host rnd l).1 < connCount s b :=
+  leastPick_first_min (connCount s) l h hne hlt
+
+/-- lowest-latency returns the first backend without a measurement, if there is one -/
+theorem lowest_latency_unmeasured_first (s : SState) (host : Bytes) (rnd : Nat) (l : List Addr) (b : Addr)
+    (pre post : List Addr) (hl : l = pre ++ b :: post) (hb : latencyOf s b = none)
+    (hpre : ∀ c ∈ pre, (latencyOf s c).isSome = true) :
+    (pick .lowestLatency s host rnd l).1 = b := by
+  simp only [pick, latencyPick]
+  have : firstUnmeasured (latencyOf s) l = some b := by
+    subst hl
+    induction pre with
+    | nil => simp [firstUnmeasured, hb]
+    | cons c t ih =>
+      have hc := hpre c (by simp)
+      cases hv : latencyOf s c with
+      | none => simp [hv] at hc
+      | some v =>
+        simp only [List.cons_append, firstUnmeasured, hv]
+        exact ih (fun x hx => hpre x (by simp [hx]))
+  simp [this]
+
+/-- … and otherwise the first backend with the lowest (positive) measured latency -/
+theorem lowest_latency_first_min (s : SState) (host : Bytes) (rnd : Nat) (l : List Addr) (h : l ≠ [])
+    (hne : ∀ b ∈ l, b ≠ []) (hm : ∀ b ∈ l, ∃ v, latencyOf s b = some v ∧ 0 < v) :
+    ∃ pre post v, l = pre ++ (pick .lowestLatency s host rnd l).1 :: post ∧
+      latencyOf s (pick .lowestLatency s host rnd l).1 = some v ∧
+      (∀ b ∈ l, ∀ w, latencyOf s b = some w → v ≤ w) ∧
+      ∀ b ∈ pre, ∀ w, latencyOf s b = some w → v < w := by
+  have hnone : firstUnmeasured (latencyOf s) l = none := by
+    cases hf : firstUnmeasured (latencyOf s) l with
+    | none => rfl
+    | some b =>
+      obtain ⟨pre, post, e1, e2, _⟩ := firstUnmeasured_spec _ l b hf
+      obtain ⟨v, hv, _⟩ := hm b (mem_of_split e1)
+      rw [e2] at hv; cases hv
+  cases l with
+  | nil => exact absurd rfl h
+  | cons b t =>
+    obtain ⟨v, hv, hvpos⟩ := hm b (by simp)
+    obtain ⟨r, e0, _, h1, h2, h3⟩ := latencyScan_spec (latencyOf s) t (b, v) (fun c hc => hm c (by simp [hc])) hvpos
+    have hscan : latencyScan (latencyOf s) (b :: t) ([], 0) = some r := by
+      unfold latencyScan; simp [hv, e0]
+    have hr : r.1 ∈ b :: t ∧ latencyOf s r.1 = some r.2 ∧ (∀ c ∈ b :: t, ∀ w, latencyOf s c = some w → r.2 ≤ w) ∧
+        ∃ pre post, b :: t = pre ++ r.1 :: post ∧ ∀ c ∈ pre, ∀ w, latencyOf s c = some w → r.2 < w := by
+      rcases h3 with h3 | ⟨pre, post, e1, e2, e3, e4⟩
+      · subst h3
+        refine ⟨by simp, hv, ?_, [], t, rfl, by simp⟩
+        intro c hc w hw
+        rcases List.mem_cons.mp hc with rfl | hc
+        · rw [hv] at hw; cases hw; exact Nat.le_refl _
+        · exact h2 c hc w hw
+      · refine ⟨by rw [e1]; simp, e2, ?_, b :: pre, post, by rw [e1]; rfl, ?_⟩
+        · intro c hc w hw
+          rcases List.mem_cons.mp hc with rfl | hc
+          · rw [hv] at hw; cases hw; simp only at h1; exact h1
+          · exact h2 c hc w hw
+        · intro c hc w hw
+          rcases List.mem_cons.mp hc with rfl | hc
+          · rw [hv] at hw; cases hw; simp only at e3; exact e3
+          · exact e4 c hc w hw
+    obtain ⟨hmem, hlat, hmin, pre, post, hsplit, hpre⟩ := hr
+    have hnonempty : r.1.isEmpty = false := by
+      have := hne r.1 hmem
+      cases hh : r.1 with
+      | nil => exact absurd hh this
+      | cons x xs => rfl
+    have hp : (pick .lowestLatency s host rnd (b :: t)).1 = r.1 := by
+      simp only [pick, latencyPick, hnone, hscan, hnonempty, Bool.false_eq_true, if_false]
+    rw [hp]
+    exact ⟨pre, post, r.2, hsplit, hlat, hmin, hpre⟩
+
+/-! ### connection counters -/
+
+theorem track_open (s : SState) (key : Bytes) (backend : Addr) :
+    activeConnections (trackOpen s key backend) = activeConnections s + 1 ∧
+    connCount (trackOpen s key backend) backend = connCount s backend + 1 := by
+  simp [activeConnections, trackOpen, connCount]
+
+theorem track_close (s : SState) (key : Bytes) (backend : Addr) (hk : key ∈ s.active) (hb : backend ∈ s.counters) :
+    activeConnections (trackClose s key backend) + 1 = activeConnections s ∧
+    connCount (trackClose s key backend) backend + 1 = connCount s backend := by
+  have h1 := List.length_erase_of_mem hk
+  have h2 : 0 < s.active.length := List.length_pos_of_mem hk
+  have h3 : 0 < List.count backend s.counters := List.count_pos_iff.mpr hb
+  simp only [activeConnections, trackClose, connCount, List.count_erase_self]
+  omega
+
+/-- For ANY number of connections and ANY interleaving of their atomic sections, at every moment
+    `ActiveConnections()` equals the number of open connections, and each backend's least-connections counter
+    equals the number of connections currently counted on it. -/
+theorem counts_exact (conns : List Conn) (h0 : ∀ c ∈ conns, c.pc = 0) (sched : List Nat) :
+    let y := sysRun { conns := conns } sched
+    y.active.length = y.conns.countP Conn.isOpen ∧
+    (∀ b, y.counters.count b = y.conns.countP (fun c => c.counted && c.backend == b)) ∧
+    (∀ k, y.active.count k = y.conns.countP (fun c => c.isOpen && c.key == k)) := by
+  have := sysRun_inv _ sched (sysInv_init conns h0)
+  exact ⟨this.2.2.1, this.2.1, this.1⟩
+
+/-- … and when every connection has closed, both are empty again (the counts return to zero) -/
+theorem counts_return_to_zero (conns : List Conn) (h0 : ∀ c ∈ conns, c.pc = 0) (sched : List Nat)
+    (hdone : ∀ c ∈ (sysRun { conns := conns } sched).conns, c.pc = 4) :
+    (sysRun { conns := conns } sched).active = [] ∧ (sysRun { conns := conns } sched).counters = [] := by
+  have inv := sysRun_inv _ sched (sysInv_init conns h0)
+  have h1 : (sysRun { conns := conns } sched).conns.countP Conn.isOpen = 0 := by
+    rw [List.countP_eq_zero]; intro c hc; simp [Conn.isOpen, hdone c hc]
+  have h2 : (sysRun { conns := conns } sched).conns.countP Conn.counted = 0 := by
+    rw [List.countP_eq_zero]; intro c hc; simp [Conn.counted, hdone c hc]
+  exact ⟨List.eq_nil_of_length_eq_zero (inv.2.2.1.trans h1), List.eq_nil_of_length_eq_zero (inv.2.2.2.trans h2)⟩
+
+example : (sysRun { conns := [⟨[1], [7], 0⟩, ⟨[2], [7], 0⟩] } [0, 1, 1, 0, 0, 1, 1, 0]).active = [] := by decide
+
+/-! ### round-robin index under concurrency -/
+
+/-- picks as single atomic sections, in any order: (thread, index handed out) list and the final index -/
+def rrRunAtomic (idx : Nat) : List Nat → List (Nat × Nat) × Nat
+  | [] => ([], idx)
+  | th :: rest =>
+    let p := rrPickAtomic idx
+    let r := rrRunAtomic p.2 rest
+    ((th, p.1) :: r.1, r.2)
+
+/-- with the read-increment-write in one critical section, whatever the order in which the threads get the
+    mutex, the indices handed out are `idx, idx+1, …` — each exactly once — and the index ends at `idx + n` -/
+theorem rr_atomic_all_interleavings (idx : Nat) (sched : List Nat) :
+    (rrRunAtomic idx sched).1.map (·.2) = List.range' idx sched.length ∧
+    (rrRunAtomic idx sched).2 = idx + sched.length := by
+  induction sched generalizing idx with
+  | nil => exact ⟨rfl, rfl⟩
+  | cons th rest ih =>
+    obtain ⟨h1, h2⟩ := ih (idx + 1)
+    simp only [rrRunAtomic, rrPickAtomic, List.map_cons, List.length_cons, List.range'_succ]
+    exact ⟨by rw [h1], by rw [h2]; omega⟩
+
+/-- before the fix (read and store as two sections): two connections read the same index and it advances once -/
+theorem rr_lost_update_fails :
+    ∃ sched : List Nat,
+      sched.foldl rrStepDefective { idx := 0, threads := [{}, {}] } =
+        { idx := 1, threads := [{ read := some 0, done := true }, { read := some 0, done := true }] } :=
+  ⟨[0, 1, 0, 1], by decide⟩
+
+/-! ### the defects in the per-attempt removal, kept as kernel-checked witnesses -/
+
+/-- before the fix a backend listed twice was dialled twice -/
+theorem each_once_fails :
+    ¬ (∀ (parse : ParseFn) (backends : List Addr),
+        noRepeat parse (attempt (removeSelectedDefective parse) (fun _ l => l.headD []) (fun _ _ => false) backends).1 = true) := by
+  intro h
+  have := h (fun a => some (a, 1)) [[97], [97]]
+  revert this; decide
+
+/-- before the fix an address that does not parse was selected and dialled for ever: for every number of steps
+    the loop is still running and has dialled that address every time -/
+theorem attempt_never_ends_fails (bad : Addr) (n : Nat) :
+    attemptF (removeSelectedDefective (fun _ => none)) (fun _ l => l.headD []) (fun _ _ => false) n 0 [bad]
+      = (List.replicate n bad, .running) := by
+  generalize (0 : Nat) = t
+  induction n generalizing t with
+  | zero => rfl
+  | succ n ih =>
+    simp only [attemptF, List.isEmpty_cons, Bool.false_eq_true, if_false, List.headD_cons, removeSelectedDefective,
+      normalize, Option.map_none, List.replicate_succ]
+    rw [ih (t + 1)]
+
+/-- … and agreed with the repaired removal when every address parses and no two entries denote the same backend -/
+theorem removeDefective_partial (parse : ParseFn) (sel : Addr) (l : List Addr)
+    (hp : ∀ b ∈ l, (parse b).isSome = true) (hsel : sel ∈ l) (hn : (l.map (normOrSelf parse)).Nodup) :
+    removeSelectedDefective parse sel l = removeSelected parse sel l :=
+  Gate.C30.removeDefective_partial parse sel l hp hsel hn
+
+/-! ### tie to the source: facts regenerated by `tools/gofacts` -/
+
+def before (a b : String) (cs : List String) : Bool := cs.idxOf a < cs.idxOf b && cs.idxOf b < cs.length
+
+open Gate.Gen.C30 in
+/-- lock regions of the counters: each map update sits in its own Lock … Unlock region, in the order the model's
+    four atomic sections assume -/
+theorem src_counter_lock_regions :
+    trackConnectionCalls = ["canonicalConnectionKey", "sm.activeConnectionsMu.Lock", "sm.activeConnectionsMu.Unlock",
+      "sm.IncrementConnection", "func:{", "decrementStrategyCounter", "sm.activeConnectionsMu.Lock", "delete",
+      "sm.activeConnectionsMu.Unlock", "}", "return"] ∧
+    incrementConnectionCalls = ["sm.strategyCountersMu.Lock", "sm.getOrCreateCounter", "sm.strategyCountersMu.Unlock",
+      "func:{", "}", "return", "counter.Add", "sm.strategyCountersMu.Unlock", "func:{", "sm.strategyCountersMu.Lock",
+      "defer:sm.strategyCountersMu.Unlock", "counter.Load", "return", "uint32", "counter.Add", "counter.Load",
+      "sm.connectionCounters.CompareAndDelete", "}", "return"] ∧
+    activeConnectionsCalls = ["sm.activeConnectionsMu.RLock", "defer:sm.activeConnectionsMu.RUnlock", "return"] ∧
+    before "strategyManager.TrackConnection" "defer:decrementConnection" forwardCalls ∧
+    before "defer:decrementConnection" "pipe" forwardCalls := by decide
+
+open Gate.Gen.C30 in
+/-- the shared random source is only used between `rngMu.Lock` and `rngMu.Unlock` -/
+theorem src_rng_locked :
+    randomCalls = ["len", "return", "sm.rngMu.Lock", "len", "sm.rng.Intn", "sm.rngMu.Unlock", "return"] := by decide
+
+open Gate.Gen.C30 in
+/-- the round-robin index is read and written inside one `roundRobinMu` region -/
+theorem src_rr_locked :
+    roundRobinCalls = ["len", "return", "sm.roundRobinMu.Lock", "sm.roundRobinIndexes.LoadOrStore",
+      "sm.roundRobinIndexes.Store", "sm.roundRobinMu.Unlock", "len", "return"] := by decide
+
+open Gate.Gen.C30 in
+theorem src_strategy_switch :
+    strategyCases = ["config.StrategySequential", "config.StrategyRandom", "config.StrategyRoundRobin",
+      "config.StrategyLeastConnections", "config.StrategyLowestLatency", "\"\"", "default"] ∧
+    getNextBackendCalls = ["len", "return", "sm.sequentialNextBackend", "return", "sm.randomNextBackend", "return",
+      "sm.roundRobinNextBackend", "return", "sm.leastConnectionsNextBackend", "return",
+      "sm.lowestLatencyNextBackend", "return", "sm.sequentialNextBackend", "return", "sm.sequentialNextBackend",
+      "return"] := by decide
+
+open Gate.Gen.C30 in
+theorem src_try_loop :
+    tryBackendsCalls = ["next", "return", "try", "errs.V", "errs.V().Info", "return"] := by decide
+
+open Gate.Gen.C30 in
+/-- the closure asks the strategy, then filters the list with `normalizeBackendAddr` (no early `break`) -/
+theorem src_closure_removal :
+    before "strategyManager.GetNextBackend" "normalizeBackendAddr" findRouteCalls ∧
+    before "normalizeBackendAddr" "append" findRouteCalls ∧
+    normalizeCalls = ["netutil.Parse", "return", "netutil.HostPort", "parsed.String", "net.JoinHostPort", "return",
+      "parsed.String", "return"] ∧
+    normalizeLits = ["25565"] ∧ defaultPort = [50, 53, 53, 54, 53] := by decide
+
 end Gate.C30.Props
